@@ -799,7 +799,8 @@ class HttpProxyPlugin(HttpProtocolHandlerPlugin):
                 else ssl.VerifyMode.CERT_REQUIRED
             )
             self.upstream.wrap(
-                text_(self.request.host),
+                # An IPv6 literal keeps its brackets in request.host
+                text_(self.request.host).strip('[]'),
                 self.flags.ca_file,
                 as_non_blocking=True,
                 verify_mode=verify_mode,
